@@ -683,6 +683,15 @@ func constructions() []snippet {
 		{"convert-slice", "x := vicb.IntList([]int{1}); _ = x", true, "vicb"},
 		{"convert-map", "x := vicc.StrMap(map[string]int{}); _ = x", true, "vicc"},
 		{"convert-ptr", "x := (*vica.Pt)(&struct{ X, Y int }{1, 2}); _ = x", true, "vica"},
+		// the victim itself has just built a value of the type, in the same transaction
+		{"struct-lit-after-victim-built-one", "_ = vica.NewPt(1, 2); x := vica.Pt{X: 1}; _ = x", true, "vica"},
+		{"struct-lit-addr-after-victim-built-zero", "_ = vica.ZeroPt(); x := &vica.Pt{1, 2}; _ = x", true, "vica"},
+		{"new-struct-after-victim-built-one", "_ = vica.NewPt(1, 2); x := new(vica.Pt); _ = x", true, "vica"},
+		{"new-rec-after-victim-new", "_ = vica.NewRec(); x := new(vica.Rec); _ = x", true, "vica"},
+		{"slice-lit-after-victim-built-one", "_ = vicb.NewList(); x := vicb.IntList{1, 2}; _ = x", true, "vicb"},
+		{"make-named-slice-after-victim-made-one", "_ = vicb.MakeList(); x := make(vicb.IntList, 2); _ = x", true, "vicb"},
+		{"map-lit-after-victim-built-one", "_ = vicc.NewMap(); x := vicc.StrMap{\"a\": 1}; _ = x", true, "vicc"},
+		{"struct-lit-in-map-after-victim-built-one", "_ = vicc.NewPtC(); x := map[string]vicc.Pt{\"a\": {1, 2}}; _ = x", true, "vicc"},
 		// not forbidden by the specification (zero values, primitive conversions, unnamed composites): observed only
 		{"var-zero-struct", "var x vica.Pt; x.X = 3; _ = x", false, "vica"},
 		{"var-zero-named-slice", "var x vicb.IntList; x = append(x, 1); _ = x", false, "vicb"},
